@@ -465,9 +465,7 @@ Proof.
   split; [symmetry; apply firstn_skipn|]. split; [rewrite firstn_length; lia|]. split; assumption.
 Qed.
 
-(* ---------- insertion ---------- *)
-Variable m : nat.
-Hypothesis Hm : (3 <= m)%nat.
+(* ---------- decomposition helpers ---------- *)
 
 Lemma In_interleave_es : forall cs (es : list entry) x, In x es -> In x (interleave cs es).
 Proof.
@@ -542,6 +540,43 @@ Proof.
   - intros [H1 H2]. inversion H2; subst. auto.
   - intros (H1 & H2 & H3). split; [exact H1|constructor; assumption].
 Qed.
+
+(* ---------- get ---------- *)
+Theorem get_spec : forall fuel key n, wf_shape n -> bst n -> (maxheight n <= fuel)%nat ->
+  get cmp fuel key n = find_list cmp key (inorder n).
+Proof.
+  induction fuel as [|f IH]; intros key [es cs] Hwf Hbst Hfuel; [cbn in Hfuel; lia|].
+  cbn [get]. pose proof (bst_entries _ _ Hbst) as Hes.
+  apply wf_shape_inv in Hwf. destruct Hwf as [Hl Hf].
+  destruct (search cmp key es) as [pos found] eqn:Es. destruct found.
+  - destruct (search_found _ _ _ Hes Es) as (es1 & e0 & es2 & -> & Hpos & Heq). subst pos.
+    rewrite nth_error_app_mid.
+    destruct (inorder_entry_split es1 e0 es2 cs Hl) as (A & B & HAB).
+    unfold bst in Hbst. rewrite HAB in *.
+    destruct (sorted_eq_ctx _ _ _ _ Hbst Heq) as [HA HB].
+    rewrite find_list_mid by assumption. reflexivity.
+  - destruct (search_notfound _ _ _ Hes Es) as (es1 & es2 & -> & Hpos & HG & HL). subst pos.
+    destruct Hl as [->|Hl].
+    + replace (nth_error (@nil node) (length es1)) with (@None node) by (destruct (length es1); reflexivity).
+      cbn [inorder map interleave]. rewrite find_list_none by assumption. reflexivity.
+    + rewrite app_length in Hl.
+      destruct (nth_error cs (length es1)) as [c|] eqn:Ec; [|apply nth_error_None in Ec; lia].
+      destruct (split_nth _ _ _ _ Ec) as (cs1 & cs2 & -> & Hc1).
+      rewrite !app_length in Hl. cbn [length] in Hl.
+      assert (Hc2 : length cs2 = length es2) by lia.
+      apply Forall_app_mid in Hf. destruct Hf as (Hf1 & Hfc & Hf2).
+      pose proof (maxheight_child (es1 ++ es2) (cs1 ++ c :: cs2) c) as Hmc.
+      assert (Hin : In c (cs1 ++ c :: cs2)) by (apply in_or_app; right; left; reflexivity). specialize (Hmc Hin).
+      unfold bst in Hbst. rewrite (inorder_child_split es1 es2 cs1 c cs2 Hc1 Hc2) in *.
+      destruct (child_ctx key es1 es2 (map inorder cs1) (map inorder cs2) (inorder c)) as (HA & HB & HX);
+        try (rewrite map_length; assumption); try assumption.
+      rewrite find_list_app_l by assumption. rewrite find_list_app_r by assumption.
+      apply IH; [exact Hfc|exact HX|lia].
+Qed.
+
+(* ---------- insertion ---------- *)
+Variable m : nat.
+Hypothesis Hm : (3 <= m)%nat.
 
 Lemma maybe_split_spec : forall es cs, wf_shape (N es cs) ->
   match maybe_split m (N es cs) with
@@ -682,39 +717,6 @@ Proof.
   - injection H as <- <-. cbn. split; [destruct e; reflexivity|]. split; [|reflexivity]. split.
     + constructor; [left; reflexivity|constructor].
     + unfold bst. cbn. apply ksorted_cons. split; [apply ksorted_nil|intros x []].
-Qed.
-
-(* ---------- get ---------- *)
-Theorem get_spec : forall fuel key n, wf_shape n -> bst n -> (maxheight n <= fuel)%nat ->
-  get cmp fuel key n = find_list cmp key (inorder n).
-Proof.
-  induction fuel as [|f IH]; intros key [es cs] Hwf Hbst Hfuel; [cbn in Hfuel; lia|].
-  cbn [get]. pose proof (bst_entries _ _ Hbst) as Hes.
-  apply wf_shape_inv in Hwf. destruct Hwf as [Hl Hf].
-  destruct (search cmp key es) as [pos found] eqn:Es. destruct found.
-  - destruct (search_found _ _ _ Hes Es) as (es1 & e0 & es2 & -> & Hpos & Heq). subst pos.
-    rewrite nth_error_app_mid.
-    destruct (inorder_entry_split es1 e0 es2 cs Hl) as (A & B & HAB).
-    unfold bst in Hbst. rewrite HAB in *.
-    destruct (sorted_eq_ctx _ _ _ _ Hbst Heq) as [HA HB].
-    rewrite find_list_mid by assumption. reflexivity.
-  - destruct (search_notfound _ _ _ Hes Es) as (es1 & es2 & -> & Hpos & HG & HL). subst pos.
-    destruct Hl as [->|Hl].
-    + replace (nth_error (@nil node) (length es1)) with (@None node) by (destruct (length es1); reflexivity).
-      cbn [inorder map interleave]. rewrite find_list_none by assumption. reflexivity.
-    + rewrite app_length in Hl.
-      destruct (nth_error cs (length es1)) as [c|] eqn:Ec; [|apply nth_error_None in Ec; lia].
-      destruct (split_nth _ _ _ _ Ec) as (cs1 & cs2 & -> & Hc1).
-      rewrite !app_length in Hl. cbn [length] in Hl.
-      assert (Hc2 : length cs2 = length es2) by lia.
-      apply Forall_app_mid in Hf. destruct Hf as (Hf1 & Hfc & Hf2).
-      pose proof (maxheight_child (es1 ++ es2) (cs1 ++ c :: cs2) c) as Hmc.
-      assert (Hin : In c (cs1 ++ c :: cs2)) by (apply in_or_app; right; left; reflexivity). specialize (Hmc Hin).
-      unfold bst in Hbst. rewrite (inorder_child_split es1 es2 cs1 c cs2 Hc1 Hc2) in *.
-      destruct (child_ctx key es1 es2 (map inorder cs1) (map inorder cs2) (inorder c)) as (HA & HB & HX);
-        try (rewrite map_length; assumption); try assumption.
-      rewrite find_list_app_l by assumption. rewrite find_list_app_r by assumption.
-      apply IH; [exact Hfc|exact HX|lia].
 Qed.
 
 End Map.
